@@ -305,6 +305,30 @@ def run_serialised(report, n, rng, P, Affine2D):
             report_failure(report, f"serialised_{i}", dict(kind="property", function=type(out).__name__ + ".to_ufo_paint", paint=paint_json(out),
                                                             record={k: str(v) for k, v in d.items() if k != "Paint"}, denotes=[str(v) for v in (got or ())], paint_affine=[str(v) for v in want]))
             return
+        # ... and read back from OpenType objects (what the COLR -> SVG direction does) it is the same affine again
+        if i % 4 == 0:
+            from fontTools.colorLib.builder import buildCOLR
+
+            def floats(x):
+                if isinstance(x, dict):
+                    return {k: floats(v) for k, v in x.items()}
+                if isinstance(x, (list, tuple)):
+                    return type(x)(floats(v) for v in x)
+                return float(x) if isinstance(x, Fr) else x
+
+            try:
+                colr = buildCOLR({"g": floats(d)}, version=1)
+                otp = colr.table.BaseGlyphList.BaseGlyphPaintRecord[0].Paint
+                back = tuple(P.Paint.from_ot(otp).gettransform())
+            except Exception as ex:
+                back = None
+                report.notes.setdefault("from_ot_skipped", str(ex)[:200])
+            if back is not None:
+                tol = [1e-3] * 4 + [1e-3 * (1 + abs(float(want[4]))), 1e-3 * (1 + abs(float(want[5])))]
+                report.hist("from_ot.format", int(d["Format"]))
+                if any(abs(float(a) - float(b)) > t for a, b, t in zip(back, want, tol)):
+                    report_failure(report, f"from_ot_{i}", dict(kind="property", function="Paint.from_ot", paint=paint_json(out), read_back_affine=[float(v) for v in back], paint_affine=[float(v) for v in want]))
+                    return
 
 
 def run_otsvg_gradient(report, n, rng, P, Affine2D):
